@@ -97,7 +97,9 @@ def validateValues (rows : List VRow) (dtName : Nat → Option Str) : Except Val
   else
     let pot := cs.filter (potentially dtName)
     if pot.all (fun r => decide (classOf r = expectedOf dtName r)) then .ok ()
-    else if pot.all (fun r => decide (classOf r = kUAEnumeration)) then .ok ()
-    else .error (.invalid ((pot.filter fun r => !decide (classOf r = expectedOf dtName r) && !decide (classOf r = kUAEnumeration)).map (·.display)))
+    else
+      -- `(~IsValidValue & ~enumeration).any()`
+      let bad := pot.filter fun r => !decide (classOf r = expectedOf dtName r) && !decide (classOf r = kUAEnumeration)
+      if bad = [] then .ok () else .error (.invalid (bad.map (·.display)))
 
 end Opcua
